@@ -58,7 +58,7 @@ define_state_group!(script_data_escaped_states_group = {
 
         alpha => ( update_tag_name_hash; )
         eof   => ( emit_text_and_eof?; )
-        _     => ( emit_text?; reconsume in script_data_escaped_state )
+        _     => ( unmark_tag_start; emit_text?; reconsume in script_data_escaped_state )
     }
 
 });
